@@ -43,6 +43,9 @@ P_Config.vos P_Config.vok P_Config.required_vos: P_Config.v Ast.vos Generated.vo
 P_Count.vo P_Count.glob P_Count.v.beautified P_Count.required_vo: P_Count.v Ast.vo Generated.vo Config.vo Model.vo HookSites.vo P_OpVisit.vo P_Local.vo
 P_Count.vio: P_Count.v Ast.vio Generated.vio Config.vio Model.vio HookSites.vio P_OpVisit.vio P_Local.vio
 P_Count.vos P_Count.vok P_Count.required_vos: P_Count.v Ast.vos Generated.vos Config.vos Model.vos HookSites.vos P_OpVisit.vos P_Local.vos
+P_CountGlobal.vo P_CountGlobal.glob P_CountGlobal.v.beautified P_CountGlobal.required_vo: P_CountGlobal.v Ast.vo Generated.vo Config.vo Model.vo HookSites.vo WfTree.vo P_OpVisit.vo P_Kinds.vo P_Telemetry.vo P_Count.vo
+P_CountGlobal.vio: P_CountGlobal.v Ast.vio Generated.vio Config.vio Model.vio HookSites.vio WfTree.vio P_OpVisit.vio P_Kinds.vio P_Telemetry.vio P_Count.vio
+P_CountGlobal.vos P_CountGlobal.vok P_CountGlobal.required_vos: P_CountGlobal.v Ast.vos Generated.vos Config.vos Model.vos HookSites.vos WfTree.vos P_OpVisit.vos P_Kinds.vos P_Telemetry.vos P_Count.vos
 P_Directives.vo P_Directives.glob P_Directives.v.beautified P_Directives.required_vo: P_Directives.v Ast.vo Generated.vo Config.vo Model.vo Directives.vo P_OpVisit.vo P_Kinds.vo
 P_Directives.vio: P_Directives.v Ast.vio Generated.vio Config.vio Model.vio Directives.vio P_OpVisit.vio P_Kinds.vio
 P_Directives.vos P_Directives.vok P_Directives.required_vos: P_Directives.v Ast.vos Generated.vos Config.vos Model.vos Directives.vos P_OpVisit.vos P_Kinds.vos
@@ -103,6 +106,9 @@ SrcMap.vos SrcMap.vok SrcMap.required_vos: SrcMap.v
 ToConfig.vo ToConfig.glob ToConfig.v.beautified ToConfig.required_vo: ToConfig.v Ast.vo Generated.vo Config.vo
 ToConfig.vio: ToConfig.v Ast.vio Generated.vio Config.vio
 ToConfig.vos ToConfig.vok ToConfig.required_vos: ToConfig.v Ast.vos Generated.vos Config.vos
+WfTree.vo WfTree.glob WfTree.v.beautified WfTree.required_vo: WfTree.v Ast.vo Generated.vo
+WfTree.vio: WfTree.v Ast.vio Generated.vio
+WfTree.vos WfTree.vok WfTree.required_vos: WfTree.v Ast.vos Generated.vos
 Properties/C01.vo Properties/C01.glob Properties/C01.v.beautified Properties/C01.required_vo: Properties/C01.v Ast.vo Generated.vo Config.vo Model.vo HookSites.vo Erase.vo Order.vo P_Local.vo P_Hooks.vo Sem.vo P_Sem.vo
 Properties/C01.vio: Properties/C01.v Ast.vio Generated.vio Config.vio Model.vio HookSites.vio Erase.vio Order.vio P_Local.vio P_Hooks.vio Sem.vio P_Sem.vio
 Properties/C01.vos Properties/C01.vok Properties/C01.required_vos: Properties/C01.v Ast.vos Generated.vos Config.vos Model.vos HookSites.vos Erase.vos Order.vos P_Local.vos P_Hooks.vos Sem.vos P_Sem.vos
@@ -145,9 +151,9 @@ Properties/C13.vos Properties/C13.vok Properties/C13.required_vos: Properties/C1
 Properties/C14.vo Properties/C14.glob Properties/C14.v.beautified Properties/C14.required_vo: Properties/C14.v Ast.vo Generated.vo Literals.vo P_Literals.vo
 Properties/C14.vio: Properties/C14.v Ast.vio Generated.vio Literals.vio P_Literals.vio
 Properties/C14.vos Properties/C14.vok Properties/C14.required_vos: Properties/C14.v Ast.vos Generated.vos Literals.vos P_Literals.vos
-Properties/C15.vo Properties/C15.glob Properties/C15.v.beautified Properties/C15.required_vo: Properties/C15.v Ast.vo Generated.vo Config.vo Model.vo P_Telemetry.vo
-Properties/C15.vio: Properties/C15.v Ast.vio Generated.vio Config.vio Model.vio P_Telemetry.vio
-Properties/C15.vos Properties/C15.vok Properties/C15.required_vos: Properties/C15.v Ast.vos Generated.vos Config.vos Model.vos P_Telemetry.vos
+Properties/C15.vo Properties/C15.glob Properties/C15.v.beautified Properties/C15.required_vo: Properties/C15.v Ast.vo Generated.vo Config.vo Model.vo HookSites.vo WfTree.vo P_Telemetry.vo P_Count.vo P_CountGlobal.vo
+Properties/C15.vio: Properties/C15.v Ast.vio Generated.vio Config.vio Model.vio HookSites.vio WfTree.vio P_Telemetry.vio P_Count.vio P_CountGlobal.vio
+Properties/C15.vos Properties/C15.vok Properties/C15.required_vos: Properties/C15.v Ast.vos Generated.vos Config.vos Model.vos HookSites.vos WfTree.vos P_Telemetry.vos P_Count.vos P_CountGlobal.vos
 Properties/C16.vo Properties/C16.glob Properties/C16.v.beautified Properties/C16.required_vo: Properties/C16.v Ast.vo Generated.vo Config.vo Model.vo
 Properties/C16.vio: Properties/C16.v Ast.vio Generated.vio Config.vio Model.vio
 Properties/C16.vos Properties/C16.vok Properties/C16.required_vos: Properties/C16.v Ast.vos Generated.vos Config.vos Model.vos
